@@ -4,7 +4,7 @@
    the signed fan decomposition of a simple polygon itself is the modelled step. *)
 From Coq Require Import Reals QArith Qreals List Lia Lra.
 Require Import Cox.Num.Ops Cox.Num.Transfer Cox.Geo.Vec Cox.Geo.Sums Cox.Model.Polygon Cox.Model.Entry
-  Cox.Thm.PolygonThm Cox.Thm.TriangleIntegrals Cox.Thm.PolygonFan Cox.Thm.PolygonTransfer.
+  Cox.Thm.PolygonThm Cox.Thm.TriangleIntegrals Cox.Thm.PolygonFan Cox.Thm.PolygonTransfer Cox.Thm.CycleSplit.
 Import ListNotations.
 Local Open Scope R_scope.
 
@@ -66,6 +66,14 @@ Theorem C04_triangle_integrals :
     /\ tri_int (fun x y => x * y) ax ay bx by_ = (ax * by_ - ay * bx) * (ax * by_ + 2 * (ax * ay + bx * by_) + bx * ay) / 24.
 Proof. intros. repeat split; [apply tri_one | apply tri_x | apply tri_xx | apply tri_yy | apply tri_xy]. Qed.
 Print Assumptions C04_triangle_integrals.
+
+(* every shoelace sum of a vertex cycle of any length is the sum over its fan triangles (chords cancel) *)
+Theorem C04_polygon_is_sum_of_fan_triangles :
+  forall a b l,
+    Sa Rops (a :: b :: l) = CycleSplit.fan (sh Rops) a b l /\ Sx Rops (a :: b :: l) = CycleSplit.fan tSx a b l
+    /\ Sy Rops (a :: b :: l) = CycleSplit.fan tSy a b l /\ Sxy Rops (a :: b :: l) = CycleSplit.fan tSxy a b l.
+Proof. exact shoelace_sums_are_fan_sums. Qed.
+Print Assumptions C04_polygon_is_sum_of_fan_triangles.
 
 (* the fan-sum area does not depend on the apex *)
 Theorem C04_area_apex_free :
